@@ -152,6 +152,14 @@ def run_case(case, ctx):
 		_compare(np, got, exp, k, 'generator', case)
 		got = _call(lambda: calc_signature(kspec, tuple(seqs)), 'tuple', case)
 		_compare(np, got, exp, k, 'tuple', case)
+		# one-shot iterables together with each explicit accumulator
+		for aname, mk in accs:
+			if aname == 'default':
+				continue
+			for iname, it in (('generator', lambda: (s for s in seqs)), ('map', lambda: map(bytes, seqs)), ('iter', lambda: iter(list(seqs)))):
+				what = f'{iname}/{aname}'
+				got = _call(lambda: calc_signature(kspec, it(), accumulator=mk()), what, case)
+				_compare(np, got, exp, k, what, case)
 		classes = R.analyse(seqs, k, pb)
 		if len(set(exp)) and any(True for _ in ()):
 			pass
